@@ -5,6 +5,10 @@ V = os.path.dirname(os.path.dirname(os.path.abspath(__file__)))
 props = [json.loads(l) for l in open(os.path.join(V, "properties.jsonl"))]
 
 CLAIMED = {
+ "C08": dict(
+  technique="rapid-generated journals from the model; every cursor position probed; reflective walker validates every Position/Range/Location/TextEdit/FoldingRange against a UTF-16 reference buffer; renderer spans decide 'on target'",
+  text="Journals rich in non-ASCII/non-BMP text are rendered from the model with every lexeme span recorded. All position-carrying features (diagnostics, hover, definition, references, prepareRename, rename, completion and inline-completion edits at every cursor column; document and workspace symbols, links, folds) are requested and every position-bearing field, found reflectively, must lie inside the document with start<=end, in UTF-16 units, never inside a surrogate pair. Hover / prepareRename / references / rename / workspace-symbol / link / undeclared-commodity ranges must equal the span of the lexeme concerned; folds and outline symbols must be pairwise disjoint or nested and a transaction's fold must end inside its own entry.",
+  note="Single document without workspace root (cross-file attribution is C09's concern). At a boundary between two lexemes either may be reported. UNDECLARED_ACCOUNT may cover the account or its whole posting. Cursor positions inside surrogate pairs are not sent."),
  "C17": dict(
   technique="rapid-generated documents (model-rendered journals and token soup) with decoded-array validity and lexeme-span oracles; rapid state-machine histories with a client model applying semantic-token delta edits",
   text="For every generated document the relative token array is decoded and validated against the text (document order, no overlap, inside the line in UTF-16 units, no split surrogate pair, non-empty, type and modifier bits inside the advertised legend); for journals rendered from the model every account / commodity / payee / date / amount / tag / tag value / directive / code / status / comment / operator token must start at and have the length of a renderer lexeme of that kind (code with parentheses, quoted commodity with quotes). Range answers must be an ordered subset of the full answer that contains every token inside the range and none from lines outside it. Histories of edits, full, delta (current, stale, unknown, empty, foreign previousResultId), close and re-open on 1..3 documents sharing a server are replayed against a client model that keeps every result by id and applies the returned edits; the rebuilt array must equal the full result for the current text.",
